@@ -247,6 +247,19 @@ def okComplementTwice (name : List Char) (c : Char) (ans : Option Char) : Bool :
   | none => ans.isNone
   | some _ => ans == some c
 
+/-- reverse complement of a text of ANY length: the IUPAC complements of its letters, last letter first; refused as
+    soon as one letter has no complement in the alphabet, and always for an alphabet that is not a nucleotide alphabet
+    (written position by position, independently of the code's
+    `reversed` / `join`) -/
+def okRevComp (name : List Char) (s : List Char) (ans : Option (List Char)) : Bool :=
+  if (ntAlphabets.lookup name).isNone then ans.isNone      -- not a nucleotide alphabet: refused, whatever the text
+  else if s.all (fun c => (expectComplement name c).isSome) then
+    match ans with
+    | none => false
+    | some r => r.length == s.length &&
+        (List.range s.length).all (fun i => (r[i]?) == (s[s.length - 1 - i]?).bind (expectComplement name))
+  else ans.isNone
+
 /-- `Alphabet[name]` letters + `is_nucleotide_alphabet()` -/
 def okAlphabet (name : List Char) (letters : List Char) (isNt : Bool) : Bool :=
   match ntAlphabets.lookup name with
